@@ -73,6 +73,17 @@ func (s *Solver) start() error {
 	return nil
 }
 
+// Restart replaces the solver process by a fresh one with the given timeout (the term DAG is
+// re-emitted on demand). Used to ask a query again that came back unknown: a fresh process with
+// more time often decides what a long-lived one under load did not.
+func (s *Solver) Restart(timeoutMs int) {
+	s.Close()
+	s.timeoutMs = timeoutMs
+	s.start()
+}
+
+func (s *Solver) TimeoutMs() int { return s.timeoutMs }
+
 func (s *Solver) Close() {
 	if s.cmd != nil {
 		s.in.Close()
